@@ -143,3 +143,35 @@ Lemma render_own_value fs rs t r :
   List.find (fun r => s_denotes r t) rs = Some r ->
   render_own fs rs (Tok t) = match arg_value fs r with Some v => Lit v | None => Tok t end.
 Proof. intros F. cbn [render_own]. rewrite F. reflexivity. Qed.
+
+(* ------------------------------------------------------------------ repeated resolution (sessions) *)
+(* one call: under the (decidable) hypothesis for the values of the file system of that moment, the
+   answer is the specification on that file system *)
+Theorem exact_on fs rs ps :
+  separated_onb fs rs ps = true -> resolve_on fs rs (flatten ps) = spec_on fs rs ps.
+Proof.
+  unfold separated_onb, resolve_on, spec_on. destruct (to_drefs fs rs) as [ds|] eqn:D; [|reflexivity].
+  intros S. f_equal. apply (exact_values fs rs ds ps D). apply separatedb_sound, S.
+Qed.
+
+(* a session: every answer is the specification on the file system of its own call; nothing of the
+   earlier file systems (nor of the earlier answers) is left in it *)
+Theorem exact_session rs ps fss :
+  forallb (fun fs => separated_onb fs rs ps) fss = true ->
+  session rs (flatten ps) fss = map (fun fs => spec_on fs rs ps) fss.
+Proof.
+  intros H. unfold session. apply map_ext_in. intros fs I.
+  apply exact_on. rewrite forallb_forall in H. apply H, I.
+Qed.
+
+(* the answer of a call does not depend on the calls made before it *)
+Theorem session_last rs args fss fs :
+  List.last (session rs args (fss ++ [fs])) None = resolve_on fs rs args.
+Proof.
+  unfold session. rewrite map_app. cbn [map]. apply last_last.
+Qed.
+
+(* two calls on file systems that give the references the same values answer the same *)
+Theorem resolve_on_values fs fs' rs args :
+  to_drefs fs rs = to_drefs fs' rs -> resolve_on fs rs args = resolve_on fs' rs args.
+Proof. unfold resolve_on. intros ->. reflexivity. Qed.
